@@ -221,6 +221,12 @@ class SR:
     def exp(self):
         return engine().apply('exp', self)
 
+    def cos(self):
+        return engine().apply('cos', self)
+
+    def sin(self):
+        return engine().apply('sin', self)
+
     def __abs__(self):
         if self < 0:
             return -self
@@ -466,7 +472,7 @@ class Engine:
         self.axioms = []  # z3 formulas asserted on every path (documented per harness)
         self.hyp_sites = set()  # (filename suffix, lineno) of asserts treated as hypotheses
         self.stats = dict(paths=0, pruned=0, branch_queries=0, verdict_queries=0, solver_s=0.0, forks=0,
-                          verdict_unsat=0, verdict_sat=0)
+                          verdict_unsat=0, verdict_sat=0, verdict_trivial=0)
         self.smt2_log = None  # list collecting verdict queries as SMT-LIB2 (second-solver re-check)
         self.in_run = False
 
@@ -778,6 +784,44 @@ class Engine:
             self.stats['verdict_unsat'] += 1
             return True, None
         return self.prove(claim, label)
+
+    def prove_identity(self, lhs, rhs, label=''):
+        """lhs == rhs for two symbolic values, decided on the canonical linear form: the difference is normalised
+        to sum_i c_i * m_i over distinct monomials m_i (products of atoms: variables, uninterpreted applications,
+        reciprocals, roots).  An empty difference proves the identity outright.  Otherwise every non-linear
+        monomial is abstracted by a fresh real and z3 decides the resulting QF_LRA disequality under the linear
+        part of the path condition - posing the original non-linear formula with uninterpreted functions to z3
+        does not terminate for `sat` instances (measured), and a `sat` here is only a candidate that the caller
+        must confirm by concrete replay."""
+        d = SR.lift(lhs) - SR.lift(rhs)
+        if not d.p:
+            self.stats['verdict_trivial'] = self.stats.get('verdict_trivial', 0) + 1
+            return True, None
+        self.stats['verdict_queries'] += 1
+        s = z3.SolverFor('QF_LRA')
+        s.set('timeout', self.timeout_ms)
+        for c in self.path_cond:
+            if _is_linear(c):
+                s.add(c)
+        terms = []
+        for m, c in sorted(d.p.items()):
+            lin = len(m) == 0 or (len(m) == 1 and m[0][1] == 1 and self.atom_key(m[0][0])[0] == 'var')
+            if lin:
+                terms.append(SR({m: c}).z3())
+            else:
+                v = z3.Real('mono!%s' % '_'.join('%d^%d' % ak for ak in m))
+                terms.append(z3.RealVal(str(c)) * v)
+        s.add(z3.Sum(terms) != 0 if len(terms) > 1 else terms[0] != 0)
+        t0 = time.time()
+        r = s.check()
+        self.stats['solver_s'] += time.time() - t0
+        if r == z3.unsat:
+            self.stats['verdict_unsat'] += 1
+            return True, None
+        if r == z3.unknown:
+            raise Inconclusive('solver unknown on identity %s' % label)
+        self.stats['verdict_sat'] += 1
+        return False, s.model()
 
     def prove(self, claim, label='', extra=()):
         """True iff `path condition => claim` (unsat of the negation).  Returns (ok, model)."""
